@@ -20,7 +20,7 @@ var ghostBuiltins = map[string]bool{
 	"implies": true, "iff": true, "forall": true, "exists": true, "old": true, "has": true,
 	"lo": true, "hi": true, "at": true, "held": true, "typeIs": true, "gint": true, "allocated": true,
 	"sameArray": true, "refOf": true, "nonNil": true, "dynRef": true, "before": true,
-	"glen": true, "gentry": true, "gfield": true, "gfieldS": true, "mulGE": true, "ptrAt": true, "sliceRef": true, "elemAt": true, "smHas": true, "smIs": true, "smGet": true, "gclock": true, "chanRef": true, "timeNanos": true, "mapRef": true, "live": true, "gsHas": true, "gsCard": true, "gsOnly": true, "gsSame": true, "gsIsAdd": true, "gsIsRemove": true, "gsOthersSame": true,
+	"glen": true, "gentry": true, "gfield": true, "gfieldS": true, "mulGE": true, "ptrAt": true, "sliceRef": true, "elemAt": true, "smHas": true, "smIs": true, "smGet": true, "gclock": true, "chanRef": true, "timeNanos": true, "mapRef": true, "live": true, "gsHas": true, "gsCard": true, "gsOnly": true, "gsSame": true, "gsTagged": true, "gsOthersSameByType": true, "gsIsAdd": true, "gsIsRemove": true, "gsOthersSame": true,
 }
 
 func (x *Exec) isGhostBuiltin(fn *ssa.Function) bool {
@@ -303,7 +303,7 @@ func (x *Exec) ghost(name string, fn *ssa.Function, args []*Val, st *State, pos 
 		var bound []*Val
 		var decls []string
 		var ranges []string
-		x.sc.binder++
+		var bvs [][2]string
 		for i := 0; i < cl.Signature.Params().Len(); i++ {
 			p := cl.Signature.Params().At(i)
 			srt, ok := x.scalarSort(p.Type())
@@ -316,6 +316,7 @@ func (x *Exec) ghost(name string, fn *ssa.Function, args []*Val, st *State, pos 
 				for _, l := range x.leaves(p.Type()) {
 					n := x.sc.fresh("q_" + p.Name())
 					decls = append(decls, "("+n+" "+l.Sort+")")
+					bvs = append(bvs, [2]string{n, l.Sort})
 					names = append(names, n)
 				}
 				bv, _ := x.unflatten(p.Type(), names)
@@ -324,6 +325,7 @@ func (x *Exec) ghost(name string, fn *ssa.Function, args []*Val, st *State, pos 
 			}
 			n := x.sc.fresh("q_" + p.Name())
 			decls = append(decls, "("+n+" "+srt+")")
+			bvs = append(bvs, [2]string{n, srt})
 			bound = append(bound, scalar(p.Type(), n, srt))
 			if isGoInt(p.Type()) && !x.sc.bvMode {
 				if isSigned(p.Type()) {
@@ -331,10 +333,11 @@ func (x *Exec) ghost(name string, fn *ssa.Function, args []*Val, st *State, pos 
 				}
 			}
 		}
+		x.sc.bind(bvs)
 		s2 := st.clone()
 		s2.pc = "true"
 		rv, _ := x.run(cl, bound, fv.Fn.Bindings, s2, false, nil)
-		x.sc.binder--
+		x.sc.unbind(len(bvs))
 		q := "forall"
 		body := rv.S
 		if name == "exists" {
@@ -474,14 +477,46 @@ func (x *Exec) ghost(name string, fn *ssa.Function, args []*Val, st *State, pos 
 			obj = "(nat64 " + obj + ")"
 		}
 		tag, pay := x.gsKey(st, args[2])
-		inner := sel(o.has, obj)
-		was := sel(sel(inner, tag), pay)
-		val, nc := "true", ite(was, sel(o.card, obj), "(+ "+sel(o.card, obj)+" 1)")
+		was := gsMember(o, obj, tag, pay)
+		oc := sel(o.card, obj)
 		if name == "gsIsRemove" {
-			val, nc = "false", ite(was, "(- "+sel(o.card, obj)+" 1)", sel(o.card, obj))
+			return scalar(boolT, and(eq(sel(g.has, obj), ite(was, sto(sel(o.has, obj), pay, "false"), sel(o.has, obj))),
+				eq(sel(g.card, obj), ite(was, "(- "+oc+" 1)", oc)), eq(sel(g.etag, obj), sel(o.etag, obj))), "Bool")
 		}
-		return scalar(boolT, and(eq(sel(g.has, obj), sto(inner, tag, sto(sel(inner, tag), pay, val))), eq(sel(g.card, obj), nc)), "Bool")
+		return scalar(boolT, and(eq(sel(g.has, obj), sto(sel(o.has, obj), pay, "true")),
+			eq(sel(g.card, obj), ite(was, oc, "(+ "+oc+" 1)")), eq(sel(g.etag, obj), tag)), "Bool")
+	case "gsTagged":
+		// the set's element type is exactly T (it has been filled at least once)
+		fam := x.strOf(args[0].S)
+		g := x.gsGet(st, fam)
+		obj := args[1].S
+		if x.sc.bvMode {
+			x.sc.bridge[64] = true
+			obj = "(nat64 " + obj + ")"
+		}
+		targs := fn.TypeArgs()
+		return scalar(boolT, eq(sel(g.etag, obj), x.tagOf(targs[len(targs)-1])), "Bool")
+	case "gsOthersSameByType":
+		x.needFreshNow()
+		// two-state frame: every set that existed in the old state and whose element type then was
+		// not T is unchanged
+		if x.oldState == nil {
+			panic(unsupported("%s outside a two-state context", name))
+		}
+		fam := x.strOf(args[0].S)
+		g := x.gsGet(st, fam)
+		o := x.gsGet(x.oldState, fam)
+		targs := fn.TypeArgs()
+		v := x.sc.fresh("go")
+		inner := fmt.Sprintf("(=> (and (<= %s %s) (not (= (select %s %s) %s))) (and (= (select %s %s) (select %s %s)) (= (select %s %s) (select %s %s)) (= (select %s %s) (select %s %s))))",
+			v, x.oldState.allocTop, o.etag, v, x.tagOf(targs[len(targs)-1]), g.has, v, o.has, v, g.card, v, o.card, v, g.etag, v, o.etag, v)
+		if pt := gsPatterns(v, g, o); pt != "" {
+			inner = "(! " + inner + " " + pt + ")"
+		}
+		body := fmt.Sprintf("(forall ((%s Int)) %s)", v, inner)
+		return scalar(boolT, body, "Bool")
 	case "gsSame", "gsOthersSame":
+		x.needFreshNow()
 		// two-state frame conditions on ghost sets: gsSame(family, obj): the set of obj is what it
 		// was in the old state; gsOthersSame(family, a, b): so are the sets of all other objects
 		// that existed then.
@@ -500,14 +535,16 @@ func (x *Exec) ghost(name string, fn *ssa.Function, args []*Val, st *State, pos 
 		}
 		if name == "gsSame" {
 			obj := conv(args[1].S)
-			return scalar(boolT, and(eq(sel(g.has, obj), sel(o.has, obj)), eq(sel(g.card, obj), sel(o.card, obj))), "Bool")
+			return scalar(boolT, and(eq(sel(g.has, obj), sel(o.has, obj)), eq(sel(g.card, obj), sel(o.card, obj)), eq(sel(g.etag, obj), sel(o.etag, obj))), "Bool")
 		}
 		a, b := conv(args[1].S), conv(args[2].S)
 		v := x.sc.fresh("go")
-		x.sc.binder++
-		body := fmt.Sprintf("(forall ((%s Int)) (=> (and (<= %s %s) (not (= %s %s)) (not (= %s %s))) (and (= (select %s %s) (select %s %s)) (= (select %s %s) (select %s %s)))))",
-			v, v, x.oldState.allocTop, v, a, v, b, g.has, v, o.has, v, g.card, v, o.card, v)
-		x.sc.binder--
+		inner := fmt.Sprintf("(=> (and (<= %s %s) (not (= %s %s)) (not (= %s %s))) (and (= (select %s %s) (select %s %s)) (= (select %s %s) (select %s %s)) (= (select %s %s) (select %s %s))))",
+			v, x.oldState.allocTop, v, a, v, b, g.has, v, o.has, v, g.card, v, o.card, v, g.etag, v, o.etag, v)
+		if pt := gsPatterns(v, g, o); pt != "" {
+			inner = "(! " + inner + " " + pt + ")"
+		}
+		body := fmt.Sprintf("(forall ((%s Int)) %s)", v, inner)
 		return scalar(boolT, body, "Bool")
 	case "gsHas", "gsCard", "gsOnly":
 		// ghost sets of interface values attached to object identities (gset.go):
@@ -523,18 +560,15 @@ func (x *Exec) ghost(name string, fn *ssa.Function, args []*Val, st *State, pos 
 		case "gsCard":
 			return scalar(types.Typ[types.Int], x.intAsGo(sel(g.card, obj)), I)
 		case "gsOnly":
+			// every element has dynamic type T (a set that was never filled has no element type yet)
 			targs := fn.TypeArgs()
-			t := x.sc.fresh("gt")
-			p := x.sc.fresh("gp")
-			x.sc.binder++
-			body := fmt.Sprintf("(forall ((%s Int) (%s %s)) (=> (select (select (select %s %s) %s) %s) (= %s %s)))", t, p, bvSort(gsBits), g.has, obj, t, p, t, x.tagOf(targs[len(targs)-1]))
-			x.sc.binder--
-			return scalar(boolT, body, "Bool")
+			return scalar(boolT, or(eq(sel(g.etag, obj), x.tagOf(targs[len(targs)-1])), eq(sel(g.etag, obj), "0")), "Bool")
 		}
 		tag, pay := x.gsKey(st, args[2])
-		return scalar(boolT, sel(sel(sel(g.has, obj), tag), pay), "Bool")
+		return scalar(boolT, gsMember(g, obj, tag, pay), "Bool")
 	case "live":
 		// the object exists now (its identity is not above the current allocation top)
+		x.needFreshNow()
 		return scalar(boolT, "(<= "+x.refTerm(st, args[0])+" "+st.allocTop+")", "Bool")
 	case "mapRef":
 		return scalar(types.Typ[types.Int], x.intAsGo(args[0].S), I)
@@ -568,6 +602,7 @@ func (x *Exec) ghost(name string, fn *ssa.Function, args []*Val, st *State, pos 
 	case "allocated":
 		// the object existed when the function under contract was entered (at a call site: when the
 		// call was made)
+		x.needFreshNow()
 		p := args[0]
 		base := x.top0
 		if x.allocBase != "" {
@@ -760,6 +795,7 @@ func (x *Exec) contractCall(fn *ssa.Function, key string, ctr *Contract, args []
 			g := x.evalClauseFn(cl.Fn, cargs, st, old)
 			if len(binders) > 0 {
 				x.sc.binder--
+				x.sc.boundVars = x.sc.boundVars[:len(x.sc.boundVars)-len(binders)]
 				g = "(forall (" + strings.Join(binders, " ") + ") " + g + ")"
 			}
 			x.sc.assume(implies(st.pc, g))
@@ -769,6 +805,7 @@ func (x *Exec) contractCall(fn *ssa.Function, key string, ctr *Contract, args []
 }
 
 func (x *Exec) bumpTop(st *State) {
+	x.needFreshNow()
 	x.prevTop = st.allocTop
 	top := x.sc.declare("top", "Int")
 	x.sc.assume("(>= " + top + " " + st.allocTop + ")")
@@ -915,6 +952,7 @@ func (x *Exec) bindFreeLogicals(ctr *Contract, cl *Clause, inst map[string]*Val)
 		if len(binders) == 0 {
 			x.sc.binder++
 		}
+		x.sc.boundVars = append(x.sc.boundVars, [2]string{n, srt})
 		binders = append(binders, "("+n+" "+srt+")")
 		out[a.Name] = scalar(t, n, srt)
 	}
